@@ -281,7 +281,7 @@ def _run_p(job):
         return {**m, "fref": fref, "verdict": "refused", "rule": f"internal: {type(error).__name__}: {error}"[:100]}
 
 
-def global_sweep(jobs: int = 16, props: list[str] | None = None) -> dict:
+def global_sweep(jobs: int = 16, props: list[str] | None = None, kinds: set[str] | None = None) -> dict:
     from .__main__ import run_property
 
     repo = Repo()
@@ -298,7 +298,8 @@ def global_sweep(jobs: int = 16, props: list[str] | None = None) -> dict:
         except Exception:
             continue
         for m in generate(repo.sources[f.module], f.node):
-            work.append((pids, f.module, fref, m))
+            if kinds is None or m["kind"] in kinds:
+                work.append((pids, f.module, fref, m))
     with ProcessPoolExecutor(max_workers=jobs) as ex:
         res = list(ex.map(_run_any, work, chunksize=4))
     for r in res:
@@ -322,9 +323,10 @@ def main(argv: list[str]) -> int:
     ap.add_argument("--limit", type=int)
     ap.add_argument("--out")
     ap.add_argument("--fn", action="append")
+    ap.add_argument("--kinds")
     a = ap.parse_args(argv)
     if a.pid.upper() == "ALL":
-        r = global_sweep(a.jobs)
+        r = global_sweep(a.jobs, kinds=set(a.kinds.split(",")) if a.kinds else None)
         print(f"ALL: {r['functions']} functions, {r['edits_in_code']} code edits, pinned by some check {r['pinned']} ({r['pinned'] / max(1, r['edits_in_code']):.0%})")
         if a.out:
             json.dump(r, open(a.out, "w"), indent=1)
